@@ -2056,3 +2056,48 @@ M("domain-create-pool-credit-error-dropped", "C02", "C02.errcheck",
 		}
 	}""", """	_ = ctx.FeePool.AddToPool(price)
 	_ = codes.ErrAddingToFeePool"""))
+M("revert-fix-opinion-err-never-fails", "C18", "C18.index",
+  ("data/governance/types.go", """	switch opinion {
+	case OPIN_UNKNOWN, OPIN_POSITIVE, OPIN_NEGATIVE, OPIN_GIVEUP:
+		return nil
+	}
+	return errors.New("vote opinion must be one of [UNKNOWN, POSITIVE, NEGATIVE, GIVEUP]")""", """	opName := opinion.String()
+	if opName == "" {
+		return errors.New("vote opinion must be one of [UNKNOWN, POSITIVE, NEGATIVE, GIVEUP]")
+	}
+	return nil"""))
+M("vote-opinion-not-validated", "C18", "C18.index",
+  ("action/governance/voteProposal.go", """	if err = vote.Opinion.Err(); err != nil {
+		return false, action.Response{
+			Log: gov.ErrInvalidVoteOpinion.Marshal(),
+		}
+	}
+
+	// Add this vote""", """	// Add this vote"""),
+  ("action/governance/voteProposal.go", """	if err = vote.Opinion.Err(); err != nil {
+		return false, gov.ErrInvalidVoteOpinion
+	}""", """	_ = gov.ErrInvalidVoteOpinion"""))
+M("opinion-err-accepts-new-value", "C18", "C18.index",
+  ("data/governance/types.go", """	case OPIN_UNKNOWN, OPIN_POSITIVE, OPIN_NEGATIVE, OPIN_GIVEUP:
+		return nil
+	}""", """	case OPIN_UNKNOWN, OPIN_POSITIVE, OPIN_NEGATIVE, OPIN_GIVEUP, OPIN_GIVEUP + 1:
+		return nil
+	}"""))
+R("opinion-err-range-compare", ["C18"],
+  ("data/governance/types.go", """	switch opinion {
+	case OPIN_UNKNOWN, OPIN_POSITIVE, OPIN_NEGATIVE, OPIN_GIVEUP:
+		return nil
+	}
+	return errors.New("vote opinion must be one of [UNKNOWN, POSITIVE, NEGATIVE, GIVEUP]")""", """	if opinion == OPIN_UNKNOWN || opinion == OPIN_POSITIVE || opinion == OPIN_NEGATIVE || opinion == OPIN_GIVEUP {
+		return nil
+	}
+	return errors.New("vote opinion must be one of [UNKNOWN, POSITIVE, NEGATIVE, GIVEUP]")"""))
+R("opinion-err-bounds-compare", ["C18"],
+  ("data/governance/types.go", """	switch opinion {
+	case OPIN_UNKNOWN, OPIN_POSITIVE, OPIN_NEGATIVE, OPIN_GIVEUP:
+		return nil
+	}
+	return errors.New("vote opinion must be one of [UNKNOWN, POSITIVE, NEGATIVE, GIVEUP]")""", """	if opinion < OPIN_UNKNOWN || opinion > OPIN_GIVEUP {
+		return errors.New("vote opinion must be one of [UNKNOWN, POSITIVE, NEGATIVE, GIVEUP]")
+	}
+	return nil"""))
